@@ -26,6 +26,7 @@ def encode(doc):
     off = sum(len(x) for x in out)
     header_end = off
     ends = []
+    block_ends = []
     for blocks in doc['times']:
         for b in blocks:
             a = np.asarray(b['data'], dtype='>f4')     # (nl, nj, ni)
@@ -44,8 +45,10 @@ def encode(doc):
             for r in (r1, r2, r3):
                 out.append(r)
                 off += len(r)
+            block_ends.append(off)
         ends.append(off)
-    return b''.join(out), {'header_end': header_end, 'step_ends': ends}
+    return b''.join(out), {'header_end': header_end, 'step_ends': ends,
+                           'block_ends': block_ends}
 
 
 def decode(buf):
